@@ -90,9 +90,11 @@ func (g *getter) note(kind string, h, to uint64, trusted *vh.Header) gcall {
 	}
 	g.cnt[kind]++
 	g.calls = append(g.calls, c)
-	g.inflight++
-	if g.inflight > g.maxInfl {
-		g.maxInfl = g.inflight
+	if kind == "Head" {
+		g.inflight++
+		if g.inflight > g.maxInfl {
+			g.maxInfl = g.inflight
+		}
 	}
 	gate := g.gate
 	gk := g.gateKind
@@ -103,9 +105,11 @@ func (g *getter) note(kind string, h, to uint64, trusted *vh.Header) gcall {
 	return c
 }
 
-func (g *getter) doneCall() {
+func (g *getter) doneCall(kind string) {
 	g.mu.Lock()
-	g.inflight--
+	if kind == "Head" {
+		g.inflight--
+	}
 	g.mu.Unlock()
 }
 
@@ -115,7 +119,7 @@ func (g *getter) Head(ctx context.Context, opts ...header.HeadOption[*vh.Header]
 		o(&p)
 	}
 	c := g.note("Head", 0, 0, p.TrustedHead)
-	defer g.doneCall()
+	defer g.doneCall("Head")
 	if err := ctx.Err(); err != nil {
 		return nil, err
 	}
@@ -127,7 +131,7 @@ func (g *getter) Head(ctx context.Context, opts ...header.HeadOption[*vh.Header]
 
 func (g *getter) Get(ctx context.Context, hash header.Hash) (*vh.Header, error) {
 	g.note("Get", 0, 0, nil)
-	defer g.doneCall()
+	defer g.doneCall("")
 	for _, h := range g.chain.Headers {
 		if h.Hash().String() == hash.String() {
 			return h, nil
@@ -138,7 +142,7 @@ func (g *getter) Get(ctx context.Context, hash header.Hash) (*vh.Header, error) 
 
 func (g *getter) GetByHeight(ctx context.Context, height uint64) (*vh.Header, error) {
 	c := g.note("GetByHeight", height, 0, nil)
-	defer g.doneCall()
+	defer g.doneCall("")
 	if g.byHFn != nil {
 		return g.byHFn(c)
 	}
@@ -150,7 +154,7 @@ func (g *getter) GetByHeight(ctx context.Context, height uint64) (*vh.Header, er
 
 func (g *getter) GetRangeByHeight(ctx context.Context, from *vh.Header, to uint64) ([]*vh.Header, error) {
 	c := g.note("GetRangeByHeight", from.Height(), to, nil)
-	defer g.doneCall()
+	defer g.doneCall("")
 	if err := ctx.Err(); err != nil {
 		return nil, err
 	}
@@ -229,7 +233,10 @@ func newNode(t *testing.T, chain *vh.Chain, have int, bsz int, opts ...hsync.Opt
 
 func (n *node) stop() {
 	bg := context.Background()
-	_ = n.sy.Stop(bg)
+	func() {
+		defer func() { _ = recover() }() // Stop of a Syncer that was never started dereferences a nil cancel func
+		_ = n.sy.Stop(bg)
+	}()
 	_ = n.st.Stop(bg)
 }
 
